@@ -380,8 +380,9 @@ theorem rval_pos (N : ℚ) (d : ℕ) (e : Int) (hd1 : 1 ≤ d) (hN : 0 < N) (h1 
 /-- what `Round(N, d)` returns with the exact decimal exponent -/
 def roundExact (N : ℚ) (d : ℕ) : ℚ := if N = 0 then 0 else rval N d (expo10 |N|)
 
-theorem round_eq_roundExact (N : ℚ) (d : ℕ) (hd : d ≤ 7) : round N d = .ok (roundExact N d) := by
-  unfold round roundExact
+theorem round_eq_roundExact (N : ℚ) (d : ℕ) (hd1 : 1 ≤ d) (hd : d ≤ 7) : round N d = .ok (roundExact N d) := by
+  unfold round roundSigG roundExact
+  rw [if_neg (by omega)]
   by_cases hN : N = 0
   · subst hN; simp [round_zero _ _ hd]
   · rw [if_neg hN, rabs_eq_abs, expo10Fast_eq _ (abs_pos.mpr hN)]
